@@ -354,3 +354,137 @@ Proof.
   - intros en _ [].
   - rewrite app_length. pose proof (enc_txt_entries_len tes). lia.
 Qed.
+
+(* ------------------------------------------------------------------ duplicated keys (C05) *)
+(* the loops on a valid run of entries followed by more input: they consume the run and continue *)
+Lemma idx_loop_entries_then : forall decf fs entries fuel m acc rest,
+  Forall (idx_entry_ok decf fs) entries ->
+  NoDup (map en_label entries) ->
+  (forall en, In en entries -> ~ In (en_label en) (map fst acc)) ->
+  0 <= m ->
+  idx_loop decf fs (List.length entries + fuel) (blen entries + m) acc (List.concat (map enc_idx_entry entries) ++ rest)
+  = idx_loop decf fs fuel m (rev (map en_item_idx entries) ++ acc) rest.
+Proof.
+  intros decf fs entries. induction entries as [|en entries IH]; intros fuel m acc rest Hok Hnd Hfresh Hm.
+  - cbn. reflexivity.
+  - inversion Hok as [|? ? [Hk [Hfind Hdec]] Hok']; subst.
+    inversion Hnd as [|? ? Hnotin Hnd']; subst.
+    cbn [List.length Nat.add idx_loop]. rewrite blen_cons. pose proof (blen_nonneg entries).
+    destruct (1 + blen entries + m <=? 0) eqn:E; [apply Z.leb_le in E; lia|].
+    cbn [map List.concat]. unfold enc_idx_entry at 1. rewrite <- !app_assoc.
+    rewrite raw_u64_put_head by exact Hk. cbn [bind].
+    rewrite Hfind.
+    assert (Hnone : rget (f_label (en_fd en)) acc = None).
+    { apply rget_none_notin. apply (Hfresh en). left. reflexivity. }
+    rewrite Hnone. rewrite Hdec. cbn [bind].
+    replace (1 + blen entries + m - 1) with (blen entries + m) by lia.
+    rewrite IH; try assumption.
+    + cbn [map rev]. rewrite <- app_assoc. reflexivity.
+    + intros en' Hin. cbn [map fst In]. intros [Heq|Hin'].
+      * apply Hnotin. change (f_label (en_fd en)) with (en_label en) in Heq. rewrite Heq.
+        apply in_map. exact Hin.
+      * apply (Hfresh en'); [right; exact Hin|exact Hin'].
+Qed.
+
+(* an integer-keyed map in which a key occurs a second time - after any run of valid, distinct entries, and
+   whatever the second value is or what follows - is rejected with a custom error (-> InvalidCbor), even
+   though every required member may be present *)
+Theorem dec_indexed_duplicate : forall e k name s d fs entries dup n rest,
+  lookup e name = Some (DStruct true s d fs) ->
+  Forall (idx_entry_ok (dec e k) fs) entries ->
+  NoDup (map en_label entries) ->
+  In dup entries ->
+  blen entries < n < 4294967296 ->
+  dec e (S k) (TNamed name)
+      (put_head 5 n ++ List.concat (map enc_idx_entry entries) ++ put_head 0 (idx_key (en_fd dup)) ++ rest)
+  = Err SerdeDeCustom.
+Proof.
+  intros e k name s d fs entries dup n rest Hl Hok Hnd Hin Hn.
+  cbn [dec]. rewrite Hl. pose proof (blen_nonneg entries).
+  rewrite raw_u32_put_head by lia. cbn [bind].
+  set (tail := put_head 0 (idx_key (en_fd dup)) ++ rest).
+  assert (Hlen : (List.length entries <= List.length (List.concat (map enc_idx_entry entries) ++ tail))%nat).
+  { rewrite app_length. pose proof (enc_idx_entries_len entries). lia. }
+  set (total := List.length (List.concat (map enc_idx_entry entries) ++ tail)) in *.
+  replace (S total) with (List.length entries + S (total - List.length entries))%nat by lia.
+  replace n with (blen entries + (n - blen entries)) by lia.
+  rewrite idx_loop_entries_then; try assumption; try lia; [|intros en _ []].
+  rewrite app_nil_r. cbn [idx_loop].
+  destruct (n - blen entries <=? 0) eqn:E; [apply Z.leb_le in E; lia|].
+  unfold tail. rewrite Forall_forall in Hok. destruct (Hok dup Hin) as [Hk [Hfind _]].
+  rewrite raw_u64_put_head by exact Hk. cbn [bind]. rewrite Hfind.
+  assert (Hsome : rget (f_label (en_fd dup)) (rev (map en_item_idx entries)) <> None).
+  { intros Hnone. apply rget_none_notin in Hnone. apply Hnone.
+    rewrite map_rev, <- in_rev, map_map. unfold en_item_idx. cbn [fst].
+    change (f_label (en_fd dup)) with (en_label dup). apply in_map. exact Hin. }
+  destruct (rget (f_label (en_fd dup)) (rev (map en_item_idx entries))); [reflexivity|contradiction].
+Qed.
+
+Lemma txt_loop_entries_then : forall decf fs tes fuel m acc rest,
+  Forall (txt_entry_ok decf fs) tes ->
+  NoDup (map en_label (known_entries tes)) ->
+  (forall en, In en (known_entries tes) -> ~ In (en_label en) (map fst acc)) ->
+  0 <= m ->
+  txt_loop decf fs (List.length tes + fuel) (blen tes + m) acc (List.concat (map enc_txt_entry tes) ++ rest)
+  = txt_loop decf fs fuel m (rev (map en_item_txt (known_entries tes)) ++ acc) rest.
+Proof.
+  intros decf fs tes. induction tes as [|te tes IH]; intros fuel m acc rest Hok Hnd Hfresh Hm.
+  - cbn. reflexivity.
+  - inversion Hok as [|? ? Hte Hok']; subst.
+    cbn [List.length Nat.add]. rewrite blen_cons. pose proof (blen_nonneg tes).
+    cbn [map List.concat]. rewrite <- app_assoc.
+    destruct te as [name en|name c]; cbn [txt_entry_ok] in Hte; cbn [enc_txt_entry known_entries flat_map] in *.
+    + destruct Hte as [Hlen [Hutf [Hfind Hdec]]].
+      cbn [app map] in Hnd. inversion Hnd as [|? ? Hnotin Hnd']; subst.
+      rewrite <- app_assoc.
+      rewrite txt_loop_known_step; try assumption; try lia.
+      * replace (1 + blen tes + m - 1) with (blen tes + m) by lia.
+        rewrite IH; try assumption.
+        { cbn [app map rev]. rewrite <- app_assoc. reflexivity. }
+        { intros en' Hin. cbn [map fst In]. intros [Heq|Hin'].
+          - apply Hnotin. change (f_label (en_fd en)) with (en_label en) in Heq. rewrite Heq. apply in_map. exact Hin.
+          - apply (Hfresh en'); [right; exact Hin|exact Hin']. }
+      * apply rget_none_notin. apply (Hfresh en). left. reflexivity.
+    + destruct Hte as [Hlen [Hutf [Hfind Hwf]]].
+      rewrite <- app_assoc.
+      rewrite txt_loop_skip_unknown; try assumption; try lia.
+      replace (1 + blen tes + m - 1) with (blen tes + m) by lia.
+      apply IH; try assumption.
+Qed.
+
+(* a text-keyed map (nested structure) in which a known member's key - or one of its aliases - occurs a
+   second time, after any run of valid entries including unknown ones: rejected (-> InvalidCbor) *)
+Theorem dec_text_duplicate : forall e k name s d fs tes dup key n rest,
+  lookup e name = Some (DStruct false s d fs) ->
+  Forall (txt_entry_ok (dec e k) fs) tes ->
+  NoDup (map en_label (known_entries tes)) ->
+  In dup (known_entries tes) ->
+  blen key < 4294967296 -> utf8_valid key = true -> find_txt_field key fs = Some (en_fd dup) ->
+  blen tes < n < 4294967296 ->
+  dec e (S k) (TNamed name)
+      (put_head 5 n ++ List.concat (map enc_txt_entry tes) ++ ser_text key ++ rest)
+  = Err SerdeDeCustom.
+Proof.
+  intros e k name s d fs tes dup key n rest Hl Hok Hnd Hin Hkl Hku Hkf Hn.
+  cbn [dec]. rewrite Hl. pose proof (blen_nonneg tes).
+  rewrite raw_u32_put_head by lia. cbn [bind].
+  set (tail := ser_text key ++ rest).
+  assert (Hlen : (List.length tes <= List.length (List.concat (map enc_txt_entry tes) ++ tail))%nat).
+  { rewrite app_length. pose proof (enc_txt_entries_len tes). lia. }
+  set (total := List.length (List.concat (map enc_txt_entry tes) ++ tail)) in *.
+  replace (S total) with (List.length tes + S (total - List.length tes))%nat by lia.
+  replace n with (blen tes + (n - blen tes)) by lia.
+  rewrite txt_loop_entries_then; try assumption; try lia; [|intros en _ []].
+  rewrite app_nil_r. cbn [txt_loop].
+  destruct (n - blen tes <=? 0) eqn:E; [apply Z.leb_le in E; lia|].
+  unfold tail, ser_text. rewrite <- app_assoc.
+  rewrite peek_major_put_head by (try lia; apply blen_nonneg). cbn [bind].
+  cbn [Z.eqb Pos.eqb orb].
+  rewrite raw_u32_put_head by (pose proof (blen_nonneg key); lia). cbn [bind].
+  rewrite take_app. cbn [bind]. rewrite Hku, Hkf. cbn [bind].
+  assert (Hsome : rget (f_label (en_fd dup)) (rev (map en_item_txt (known_entries tes))) <> None).
+  { intros Hnone. apply rget_none_notin in Hnone. apply Hnone.
+    rewrite map_rev, <- in_rev, map_map. unfold en_item_txt. cbn [fst].
+    change (f_label (en_fd dup)) with (en_label dup). apply in_map. exact Hin. }
+  destruct (rget (f_label (en_fd dup)) (rev (map en_item_txt (known_entries tes)))); [reflexivity|contradiction].
+Qed.
